@@ -2,6 +2,7 @@ package scen
 
 import (
 	"fmt"
+	tmproto "github.com/tendermint/tendermint/proto/tendermint/types"
 	"math"
 	"runtime/debug"
 	"strings"
@@ -225,48 +226,76 @@ func c13Enum(thorough bool) mc.Enum {
 // c13WholeApp runs default and near-zero parameter sets through the whole application's block processing at the
 // ABCI seam and checks what remains observable there: supply grows by the recorded emission, never negative.
 func c13WholeApp(r *mc.Run) {
-	type ps struct{ tpb, dec, prev int64 }
-	sets := []ps{{4_200_000, 6, -1}, {3, 6, 2}, {1, 2_628_000, 1}, {10, 5_256_000, 3}, {0, 0, 0}}
+	type ps struct {
+		tpb, dec, prev int64
+		initial        int64 // > 0: the chain's first block is this height and is the first block observed (no seeded previous emission)
+	}
+	sets := []ps{{4_200_000, 6, -1, 0}, {3, 6, 2, 0}, {1, 2_628_000, 1, 0}, {10, 5_256_000, 3, 0}, {0, 0, 0, 0},
+		{4_200_000, 6, -1, 1}, {4_200_000, 6, -1, 50}, {3, 5_256_000, -1, 7}}
 	ok := 0
 	for _, s := range sets {
 		s := s
 		cfg := c13Config()
 		base := cfg.Mint
 		cfg.Mint = func(p *minttypes.Params) { base(p); p.TokensPerBlock, p.MintDecrease = s.tpb, s.dec }
+		if s.initial > 0 {
+			cfg.FirstBlockIsInitial, cfg.StartHeight = true, s.initial
+		}
 		w := world.New(cfg)
-		env := w.NewEnvB()
+		report := func(clause, sig, detail string) {
+			r.Report(mc.Record{Property: "C13", Scenario: "C13/whole-app", Kind: "case", Clause: clause, Signature: clause + ":" + sig, Detail: detail, Case: fmt.Sprintf("%+v", s)})
+		}
+		good := true
+		last := sdk.NewInt(-1)
+		check := func(ctx sdk.Context, sup sdk.Int) {
+			em := w.App.BankKeeper.GetSupply(ctx, "ujkl").Amount.Sub(sup)
+			rec, found := w.App.MintKeeper.GetMintedBlock(ctx, ctx.BlockHeight())
+			if !found || !sdk.NewInt(rec.Minted).Equal(em) || em.IsNegative() {
+				report("supply-grows-by-the-emission", "whole-app", fmt.Sprintf("whole app, %+v, height %d: supply grew by %s, record found=%v minted=%d", s, ctx.BlockHeight(), em, found, rec.Minted))
+				good = false
+			}
+			if !last.IsNegative() && em.GT(last) {
+				report("emission-non-increasing", "whole-app", fmt.Sprintf("whole app, %+v, height %d: emission %s after %s", s, ctx.BlockHeight(), em, last))
+				good = false
+			}
+			last = em
+		}
+		var env *world.EnvB
+		if s.initial > 0 {
+			genesisSupply := w.App.BankKeeper.GetSupply(w.App.NewContext(false, tmproto.Header{}), "ujkl").Amount
+			env = w.NewEnvB() // begins the chain's first block
+			if env.Ctx().BlockHeight() != s.initial {
+				panic("harness: the first block is not the initial height")
+			}
+			check(env.Ctx(), genesisSupply)
+		} else {
+			env = w.NewEnvB()
+		}
 		if s.prev >= 0 {
 			env.Mutate(func(ctx sdk.Context) {
 				w.App.MintKeeper.SetMintedBlock(ctx, minttypes.MintedBlock{Height: ctx.BlockHeight(), Minted: s.prev, Denom: "ujkl"})
 			})
+			last = sdk.NewInt(s.prev)
 		}
-		good := true
-		for b := 0; b < 4; b++ {
+		for b := 0; b < 4 && good; b++ {
 			sup := w.App.BankKeeper.GetSupply(env.Ctx(), "ujkl").Amount
 			if bp := env.NextBlock(6 * time.Second); bp != nil {
 				what := "negative-emission-panics"
 				if !strings.Contains(bp.Value, "negative coin amount") {
 					what = "begin-block-panics"
 				}
-				r.Report(mc.Record{Property: "C13", Scenario: "C13/whole-app", Kind: "case", Clause: "emission-never-negative", Signature: "emission-never-negative:" + what,
-					Detail: fmt.Sprintf("whole app, %+v: %s at height %d: %s", s, bp.Phase, bp.Height, bp.Value), Case: fmt.Sprintf("%+v", s)})
+				report("emission-never-negative", what, fmt.Sprintf("whole app, %+v: %s at height %d: %s", s, bp.Phase, bp.Height, bp.Value))
 				good = false
 				break
 			}
-			ctx := env.Ctx()
-			em := w.App.BankKeeper.GetSupply(ctx, "ujkl").Amount.Sub(sup)
-			rec, found := w.App.MintKeeper.GetMintedBlock(ctx, ctx.BlockHeight())
-			if !found || !sdk.NewInt(rec.Minted).Equal(em) || em.IsNegative() {
-				r.Report(mc.Record{Property: "C13", Scenario: "C13/whole-app", Kind: "case", Clause: "supply-grows-by-the-emission", Signature: "supply-grows-by-the-emission:whole-app",
-					Detail: fmt.Sprintf("whole app, %+v: supply grew by %s, record found=%v minted=%d", s, em, found, rec.Minted), Case: fmt.Sprintf("%+v", s)})
-				good = false
-			}
+			check(env.Ctx(), sup)
 		}
 		if good {
 			ok++
 		}
 	}
 	r.Traces += ok
+	r.Evaluations += len(sets)
 	r.Sub = append(r.Sub, map[string]interface{}{"whole_app_seamB_parameter_sets": len(sets), "passed": ok})
 }
 
@@ -275,7 +304,7 @@ func init() {
 	CaseReplayers["C13/whole-app"] = func(r *mc.Run, c string) { c13WholeApp(r) }
 	Props["C13"] = Prop{Level: "exploration", Run: func(r *mc.Run, tier string) {
 		r.Rules = append(r.Rules, "full product TokensPerBlock {0,1,2,3,5,10,100,4.2M} x MintDecrease {0,6,bpy/2,bpy,bpy+1,2bpy,2^63-bpy,2^63-1} x every ratio triple over {0,8,12,33,34,50,80,100} with sum<=100 x seeded previous emission {none,0,1,2,3,10} x 6 consecutive blocks (thorough: more values, 12 blocks), every 16th ratio triple also started at heights 8, 98 and 14397 (the run crosses 9->10->11, 99->100->101 and the day boundary 14400) through the real jklmint.BeginBlocker on the real bank keeper; plus every percentage 0..100 in each of the three positions (the other two sharing the rest) x every emission 1..128 (thorough: 1..2500), one block each; one evaluation = one (parameter set, seed) run; non-trivial = emission > 0 in some block")
-		r.Assumptions = append(r.Assumptions, "module seam for the per-account split (in the whole app the distribution module sweeps the fee collector in the same BeginBlock); whole-app blocks at the ABCI seam check supply growth only", "blocks per year 5,256,000")
+		r.Assumptions = append(r.Assumptions, "module seam for the per-account split (in the whole app the distribution module sweeps the fee collector in the same BeginBlock); whole-app blocks at the ABCI seam check supply growth, the record and monotonicity (also on chains whose first block is height 1, 7 or 50, observed from that first block on)", "blocks per year 5,256,000")
 		r.AddEnum(c13Enum(tier == "thorough"), workers(), time.Time{})
 		c13WholeApp(r)
 	}}
